@@ -131,10 +131,14 @@ Converged(vals) ==
   /\ \A n \in Node : node[n].st \in {"Leader", "Follower"} /\ node[n].term = node[CHOOSE x \in Leaders : TRUE].term
   /\ \A a, b \in Node : node[a].log = node[b].log
   /\ \A v \in vals : \A n \in Node : \E j \in DOMAIN node[n].log : node[n].log[j].val = v /\ node[n].log[j].com
+\* a listed defect (D13 / D13b) prevents convergence by making the LOGS conflict (two nodes hold different entries at one
+\* index): its triggers explain a HealthyProgress violation only when they do
+LogsConflict == \E a, b \in Node : \E x \in Stored(node[a]), y \in Stored(node[b]) : x.idx = y.idx /\ x # y
+QuietTrig == IF LogsConflict THEN hist.trig ELSE {}
 TQuiet == /\ IsEvent("Quiet") /\ UNCHANGED <<node, flight, hist>>
           /\ E.drained /\ DOMAIN flight = {}
           /\ bad' = bad \cup (IF Converged(Range(E.appended)) THEN {} ELSE {"HealthyProgress"})
-          /\ (bad' # bad => PrintT(<<"PROP_VIOLATED", l, bad' \ bad, hist.trig>>))
+          /\ (bad' # bad => PrintT(<<"PROP_VIOLATED", l, bad' \ bad, QuietTrig>>))
 
 TNext == TReset \/ TProcess \/ TRequest \/ TResponse \/ TDrop \/ TDup \/ TAppend \/ TRestart \/ TQuiet
 
@@ -156,7 +160,7 @@ TAbsStep == /\ l <= Len(Rec) /\ E.ev \in {"Process", "Request", "Response", "App
 TAbsOther == /\ l <= Len(Rec) /\ E.ev \in {"Drop", "Dup"} /\ l' = l + 1 /\ UNCHANGED <<node, flight, hist, bad>>
 TAbsQuiet == /\ IsEvent("Quiet") /\ UNCHANGED <<node, flight, hist>>
              /\ bad' = bad \cup (IF E.drained /\ Converged(Range(E.appended)) THEN {} ELSE {"HealthyProgress"})
-             /\ (bad' # bad => PrintT(<<"PROP_VIOLATED", l, bad' \ bad, hist.trig>>))
+             /\ (bad' # bad => PrintT(<<"PROP_VIOLATED", l, bad' \ bad, QuietTrig>>))
 TNextAbs == TReset \/ TAbsStep \/ TAbsOther \/ TAbsQuiet
 TSkipAbs == /\ l <= Len(Rec) /\ ~ENABLED TNextAbs
             /\ PrintT(<<"RUN_REJECTED", l>>)
